@@ -740,6 +740,9 @@ type RunOpts struct {
 	AttachOpts        func(i int) []interface{}
 	RecordCalls       bool
 	Forced            map[int]string // exclusion decisions of the twin run to repeat
+	// MakeGuard builds an additional guard that can look at all replicas of
+	// the run (harness-side knowledge); it is chained after Guard.
+	MakeGuard func(r *Runner) Guard
 }
 
 // Run executes the whole program: start, steps, quiescent round, convergence
@@ -770,6 +773,13 @@ func Run(p Program, o RunOpts) (res Result) {
 	}
 	r.RecordCalls = o.RecordCalls
 	r.Forced = o.Forced
+	if o.MakeGuard != nil {
+		if r.Guard != nil {
+			r.Guard = Chain(r.Guard, o.MakeGuard(r))
+		} else {
+			r.Guard = o.MakeGuard(r)
+		}
+	}
 	base := 0
 	phase := func(steps []Step) *Failure {
 		for i, s := range steps {
